@@ -1,6 +1,246 @@
 import TantivyModel.Driver.Proto
+import TantivyModel.Model.Store.Store
+import TantivyModel.Model.Store.Version
+/-!
+Line protocol of the C09 model (doc store). Compression is `none` in every whole-file request
+(the harness feeds lz4/zstd stores block-wise after decompressing with the real codec).
+
+Canonical text of a value (no spaces):
+  `N` null, `S<hex>` str, `U<n>` u64, `I<n>` i64 bits, `F<n>` f64 disk bits, `B0|B1`, `D<n>` date bits,
+  `C<hex>` facet, `Y<hex>` bytes, `P<n>` ip as u128, `T<hex>` pre-tokenized json,
+  `A[v,v,…]`, `O{<hex>:v,…}`;   a document is `<field>=v;<field>=v;…` (`-` when empty).
+-/
 namespace TantivyModel.Driver.C09
-/-- stub: the model for C09 is not built yet -/
+open TantivyModel TantivyModel.Proto TantivyModel.Store
+
+/-! ### canonical text -/
+
+mutual
+partial def showValue : StoredValue → String
+  | .null => "N"
+  | .str b => "S" ++ hexOfBytes b
+  | .u64 v => "U" ++ toString v.toNat
+  | .i64 v => "I" ++ toString v.toNat
+  | .f64 v => "F" ++ toString v.toNat
+  | .bool b => if b then "B1" else "B0"
+  | .date v => "D" ++ toString v.toNat
+  | .facet b => "C" ++ hexOfBytes b
+  | .bytes b => "Y" ++ hexOfBytes b
+  | .ip v => "P" ++ toString v.toNat
+  | .preTok j => "T" ++ hexOfBytes j
+  | .array vs => "A[" ++ ",".intercalate (vs.map showValue) ++ "]"
+  | .object es => "O{" ++ ",".intercalate (es.map fun (k, v) => hexOfBytes k ++ ":" ++ showValue v) ++ "}"
+end
+
+def showDoc (d : StoredDoc) : String :=
+  if d.isEmpty then "-" else ";".intercalate (d.map fun (f, v) => toString f.toNat ++ "=" ++ showValue v)
+
+def isHexChar (c : Char) : Bool := c.isDigit || ('a' ≤ c && c ≤ 'f') || c == '-'
+
+def spanChars (p : Char → Bool) : List Char → List Char × List Char
+  | [] => ([], [])
+  | c :: cs => if p c then let (a, b) := spanChars p cs; (c :: a, b) else ([], c :: cs)
+
+def parseHexTok (cs : List Char) : Option (Bytes × List Char) :=
+  let (h, r) := spanChars isHexChar cs
+  (bytesOfHex (String.ofList h)).map fun b => (b, r)
+
+def parseNatTok (cs : List Char) : Option (Nat × List Char) :=
+  let (h, r) := spanChars Char.isDigit cs
+  (String.ofList h).toNat?.map fun n => (n, r)
+
+mutual
+partial def parseValue : List Char → Option (StoredValue × List Char)
+  | 'N' :: r => some (.null, r)
+  | 'S' :: r => (parseHexTok r).map fun (b, r) => (.str b, r)
+  | 'U' :: r => (parseNatTok r).bind fun (n, r) => if n < 2 ^ 64 then some (.u64 (BitVec.ofNat 64 n), r) else none
+  | 'I' :: r => (parseNatTok r).bind fun (n, r) => if n < 2 ^ 64 then some (.i64 (BitVec.ofNat 64 n), r) else none
+  | 'F' :: r => (parseNatTok r).bind fun (n, r) => if n < 2 ^ 64 then some (.f64 (BitVec.ofNat 64 n), r) else none
+  | 'D' :: r => (parseNatTok r).bind fun (n, r) => if n < 2 ^ 64 then some (.date (BitVec.ofNat 64 n), r) else none
+  | 'P' :: r => (parseNatTok r).bind fun (n, r) => if n < 2 ^ 128 then some (.ip (BitVec.ofNat 128 n), r) else none
+  | 'B' :: '0' :: r => some (.bool false, r)
+  | 'B' :: '1' :: r => some (.bool true, r)
+  | 'C' :: r => (parseHexTok r).map fun (b, r) => (.facet b, r)
+  | 'Y' :: r => (parseHexTok r).map fun (b, r) => (.bytes b, r)
+  | 'T' :: r => (parseHexTok r).map fun (b, r) => (.preTok b, r)
+  | 'A' :: '[' :: ']' :: r => some (.array [], r)
+  | 'A' :: '[' :: r => (parseValues r).map fun (vs, r) => (.array vs, r)
+  | 'O' :: '{' :: '}' :: r => some (.object [], r)
+  | 'O' :: '{' :: r => (parseEntries r).map fun (es, r) => (.object es, r)
+  | _ => none
+partial def parseValues (cs : List Char) : Option (List StoredValue × List Char) :=
+  (parseValue cs).bind fun (v, r) =>
+    match r with
+    | ',' :: r => (parseValues r).map fun (vs, r) => (v :: vs, r)
+    | ']' :: r => some ([v], r)
+    | _ => none
+partial def parseEntries (cs : List Char) : Option (List (Bytes × StoredValue) × List Char) :=
+  (parseHexTok cs).bind fun (k, r) =>
+    match r with
+    | ':' :: r =>
+      (parseValue r).bind fun (v, r) =>
+        match r with
+        | ',' :: r => (parseEntries r).map fun (es, r) => ((k, v) :: es, r)
+        | '}' :: r => some ([(k, v)], r)
+        | _ => none
+    | _ => none
+end
+
+partial def parseFields (cs : List Char) : Option StoredDoc :=
+  (parseNatTok cs).bind fun (f, r) =>
+    if f ≥ 2 ^ 32 then none else
+    match r with
+    | '=' :: r =>
+      (parseValue r).bind fun (v, r) =>
+        match r with
+        | [] => some [(BitVec.ofNat 32 f, v)]
+        | ';' :: r => (parseFields r).map fun d => (BitVec.ofNat 32 f, v) :: d
+        | _ => none
+    | _ => none
+
+def parseDoc (s : String) : Option StoredDoc :=
+  if s == "-" then some [] else parseFields s.toList
+
+/-! ### small helpers -/
+
+def showCp (c : Checkpoint) : String :=
+  s!"{c.docStart}-{c.docEnd}-{c.byteStart}-{c.byteEnd}"
+
+def showOptBytes : Option Bytes → String
+  | none => "err"
+  | some b => hexOfBytes b
+
+def joinOr (l : List String) : String := if l.isEmpty then "-" else ",".intercalate l
+
+/-- contiguous checkpoints from 0 with the given doc counts and byte lengths -/
+def mkCheckpoints : Nat → Nat → List Nat → List Nat → List Checkpoint
+  | d, b, dl :: dls, bl :: bls =>
+    { docStart := d, docEnd := d + dl, byteStart := b, byteEnd := b + bl } :: mkCheckpoints (d + dl) (b + bl) dls bls
+  | _, _, _, _ => []
+
+def hexList (s : String) : Option (List Bytes) :=
+  if s == "-" then some [] else (s.splitOn ",").mapM bytesOfHex
+
+def aliveOf (bits : String) : Nat → Bool :=
+  let arr := bits.toList.toArray
+  fun i => if bits == "all" then true else arr.getD i '0' == '1'
+
+def K : Nat := Gen.STORE_INDEX_ENTRY_COST
+def P : Nat := Gen.CHECKPOINT_PERIOD
+
+def parseSeg (s : String) : Option SourceSegment :=
+  match s.splitOn ":" with
+  | [fileHex, bits] =>
+    (bytesOfHex fileHex).bind fun file => (openStore file).map fun sf =>
+      { store := sf, codec := Compression.none, alive := aliveOf bits, hasDeletes := bits != "all" && bits.toList.any (· == '0') }
+  | _ => none
+
 def handle : List String → String
+  | ["consts"] =>
+    -- the extracted constants the harness derives its boundary values from
+    s!"{Gen.CHECKPOINT_PERIOD} {Gen.DEFAULT_DOCSTORE_BLOCKSIZE} {Gen.DOCSTORE_CACHE_CAPACITY} {Gen.STORE_INDEX_ENTRY_COST} {Gen.STACK_MIN_BLOCKS} {Gen.DOCSTORE_FOOTER_LEN}"
+  | ["vintenc", n] =>
+    match n.toNat? with
+    | some n => hexOfBytes (vintEnc n)
+    | none => "bad-op"
+  | ["vintdec", h] =>
+    match bytesOfHex h with
+    | some bs =>
+      match vintDec bs with
+      | some (n, r) => s!"{n}:{hexOfBytes r}"
+      | none => "err"
+    | none => "bad-op"
+  | ["docdec", h] =>
+    match bytesOfHex h with
+    | some bs =>
+      match deserializeDoc bs with
+      | some d => showDoc d
+      | none => "err"
+    | none => "bad-op"
+  | ["docdecv", v, h] =>
+    -- a document as `StoreReader::get` returns it from a store of format version `v`
+    match v.toNat?, bytesOfHex h with
+    | some v, some bs =>
+      match deserializeDocV v bs with
+      | some d => showDoc d
+      | none => "err"
+    | _, _ => "bad-op"
+  | ["docenc", t] =>
+    match parseDoc t with
+    | some d => hexOfBytes (encStoredDoc d)
+    | none => "bad-op"
+  | ["skipser", p, dls, bls] =>
+    match p.toNat?, natList dls, natList bls with
+    | some p, some dls, some bls =>
+      if dls.length ≠ bls.length ∨ p < 2 then "bad-op"
+      else hexOfBytes (serializeSkipIndex p (mkCheckpoints 0 0 dls bls))
+    | _, _, _ => "bad-op"
+  | ["skipseek", h, ts] =>
+    match bytesOfHex h, natList ts with
+    | some bs, some ts =>
+      match openSkipIndex bs with
+      | some idx => joinOr (ts.map fun t => match seek idx t with | some c => showCp c | none => "none")
+      | none => "err"
+    | _, _ => "bad-op"
+  | ["skipcps", h] =>
+    match bytesOfHex h with
+    | some bs =>
+      match openSkipIndex bs with
+      | some idx => s!"{idx.length}|" ++ joinOr ((checkpointsOf idx).map showCp)
+      | none => "err"
+    | none => "bad-op"
+  | ["write", bs, docs] =>
+    match bs.toNat?, hexList docs with
+    | some bs, some docs => hexOfBytes (writeStore Compression.none K P bs docs)
+    | _, _ => "bad-op"
+  | ["get", fh, ds] =>
+    match bytesOfHex fh, natList ds with
+    | some file, some ds =>
+      match openStore file with
+      | some sf => joinOr (ds.map fun d => showOptBytes (getBytes Compression.none sf d))
+      | none => "err"
+    | _, _ => "bad-op"
+  | ["cache", cap, fh, ds] =>
+    match cap.toNat?, bytesOfHex fh, natList ds with
+    | some cap, some file, some ds =>
+      match openStore file with
+      | some sf =>
+        let (rs, c) := runGets Compression.none sf (BlockCache.new cap) ds
+        let plain := ds.map (getBytes Compression.none sf)
+        s!"{c.hits}/{c.misses}/{c.entries.length}/{showBool (rs == plain)}|" ++ joinOr (rs.map showOptBytes)
+      | none => "err"
+    | _, _, _ => "bad-op"
+  | ["cachesim", cap, keys] =>
+    -- the LRU alone: `read_block` for a sequence of block start offsets (every load succeeds)
+    match cap.toNat?, natList keys with
+    | some cap, some keys =>
+      let c := keys.foldl (fun (c : BlockCache) k =>
+        match c.get k with
+        | (some _, c') => c'
+        | (none, c') => c'.put k []) (BlockCache.new cap)
+      s!"{c.hits}/{c.misses}/{c.entries.length}"
+    | _, _ => "bad-op"
+  | ["filecps", fh] =>
+    match bytesOfHex fh with
+    | some file =>
+      match openStore file with
+      | some sf => joinOr ((checkpointsOf sf.index).map showCp)
+      | none => "err"
+    | none => "bad-op"
+  | ["iter", fh, bits] =>
+    match bytesOfHex fh with
+    | some file =>
+      match openStore file with
+      | some sf => joinOr ((iterRaw Compression.none sf (aliveOf bits)).map showOptBytes)
+      | none => "err"
+    | none => "bad-op"
+  | ["merge", bs, segs] =>
+    match bs.toNat?, (segs.splitOn ";").mapM parseSeg with
+    | some bs, some segs =>
+      match mergeStores Compression.none K P Gen.STACK_MIN_BLOCKS bs segs with
+      | some file => hexOfBytes file
+      | none => "err"
+    | _, _ => "bad-op"
   | _ => "bad-op"
+
 end TantivyModel.Driver.C09
